@@ -557,6 +557,10 @@ def shape_strategy(shape: str) -> st.SearchStrategy:  # noqa: C901, PLR0911, PLR
 
 
 # ------------------------------------------------------------------------------------------ snapshots of live values
+# object addresses inside strings (default reprs) differ between any two runs; two plain runs can agree on them by chance
+_ADDRESS = re.compile(r"x[0-9a-f]{9,16}")
+
+
 def _snap(v: Any, modname: str, consume: bool = False, depth: int = 0) -> Any:  # noqa: C901, PLR0911
     """``vf.gen.values.snapshot`` extended by instances of classes defined in the generated module (by ``__dict__``)."""
     if depth > 10:
@@ -589,6 +593,8 @@ def _snap(v: Any, modname: str, consume: bool = False, depth: int = 0) -> Any:  
         return ["iterator", tp.__name__]
     if callable(v) and not isinstance(v, type) and hasattr(v, "__qualname__"):
         return ["callable", getattr(v, "__qualname__", "?")]
+    if tp is str:
+        v = _ADDRESS.sub("xADDR", v)  # default reprs ("<generator object f at 0x7f...>", also truncated by reprlib)
     return V.snapshot(v, consume)
 
 
@@ -847,7 +853,7 @@ def observe(prog: _Program, ns: dict[str, Any], call: dict[str, Any], tracer: An
     finally:
         sys.stdout = old_stdout
     log = V.take_log()
-    obs: dict[str, Any] = {"stdout": buf.getvalue()[:4000], "log": [list(e) for e in log[:400]], "log_len": len(log)}
+    obs: dict[str, Any] = {"stdout": _ADDRESS.sub("xADDR", buf.getvalue()[:4000]), "log": [list(e) for e in log[:400]], "log_len": len(log)}
     if exc is not None:
         pyn, line = _exc_location(prog, exc)
         obs.update(kind="exc", exc=f"{type(exc).__module__}.{type(exc).__qualname__}", pyn=pyn, line=line,
@@ -1087,6 +1093,7 @@ def run_case(case: dict[str, Any], subsets: list[list[str]], scratch: str, known
                 res["labels"].append("original:calls-user-operators")
         # ---- instrumented runs
         registered = False
+        rechecked: set[int] = set()
         for subset in subsets:
             name = subset_name(subset)
             excl = _static_exclusion(prog, subset, known)
@@ -1145,6 +1152,15 @@ def run_case(case: dict[str, Any], subsets: list[list[str]], scratch: str, known
                 if inst["log_len"] > o["log_len"]:
                     res["repeats"] += 1
                 diff = compare(prog, call, o, inst, stable[idx], list(watch.raised))
+                if diff is not None and idx not in rechecked:
+                    # second line of defence against address-dependent programs (id()-based hashes of NaN / plain objects
+                    # order a set, default reprs): by now the heap looks completely different, so two more plain runs
+                    # that still agree with the first one make a coincidence unlikely
+                    rechecked.add(idx)
+                    stable[idx] &= _late_stability(prog, calls, idx, o)
+                    diff = compare(prog, call, o, inst, stable[idx], list(watch.raised))
+                    if diff is None:
+                        res["labels"].append("dropped:original-unstable-on-recheck")
                 if diff is not None:
                     observable, where, detail = diff
                     res["raw"].append([subset, observable, where, f"metrics {name}: {detail}\n{_program_excerpt(prog, inst.get('line'))}"])
@@ -1157,6 +1173,22 @@ def run_case(case: dict[str, Any], subsets: list[list[str]], scratch: str, known
     finally:
         linecache.clearcache()
         shutil.rmtree(workdir, ignore_errors=True)
+
+
+def _late_stability(prog: _Program, calls: list[dict[str, Any]], idx: int, reference: dict[str, Any]) -> set[str]:
+    """Observables of call ``idx`` on which two further plain runs (different heap layouts) agree with the first plain run."""
+    keys = set(OBSERVABLES)
+    for rnd in range(2):
+        ballast = [[float(i), (i, str(i)), {i: None}, object()] for i in range(200 + 317 * rnd)]
+        ns = prog.fresh_namespace()
+        exec(prog.code, ns)  # noqa: S102
+        again = None
+        for call in calls[:idx + 1]:
+            again = observe(prog, ns, call)
+        del ballast
+        assert again is not None
+        keys = {k for k in keys if again[k] == reference[k]}
+    return keys
 
 
 def _program_excerpt(prog: _Program, focus: int | None = None) -> str:
